@@ -44,3 +44,19 @@ Theorem suffixes_differ label j k : label ++ patch_suffix j = label ++ patch_suf
 Proof.
   intros H. pose proof (suffix_value_of_fresh label j) as A. rewrite H, suffix_value_of_fresh in A. congruence.
 Qed.
+
+(* a later context over the same module starts above every number an earlier one has used: once a label of patch j is a symbol of
+   the module, the last used id is at least j *)
+Theorem later_contexts_start_above names label j :
+  j <= last_used_patch_id (names ++ [append label (patch_suffix j)])%list.
+Proof.
+  unfold last_used_patch_id. eapply last_used_bounds; [apply in_or_app; right; left; reflexivity|apply suffix_value_of_fresh].
+Qed.
+
+Theorem contexts_do_not_collide names label1 label2 j k :
+  let names' := (names ++ [append label1 (patch_suffix j)])%list in
+  last_used_patch_id names' < k -> j < k /\ ~ In (label2 ++ patch_suffix k) names'.
+Proof.
+  intros names' H. split; [pose proof (later_contexts_start_above names label1 j); unfold names' in H; lia|].
+  apply fresh_suffix_names_no_existing_symbol. exact H.
+Qed.
